@@ -1,0 +1,21 @@
+//go:build verif
+
+// Contracts for the deductive verifier in /verif (comment-only file; it
+// contributes no code to any build). Syntax: see /verif/DESIGN.md.
+//
+// Property C20, set algebra (the part within reach): the three-way split of two
+// sets neither loses nor invents an element — what is only in A plus what is
+// in both is as many as A holds, likewise for B — and leaves both inputs
+// untouched. (That the results are the mathematical difference and
+// intersection is not decided: it needs the order on digests as a theory.)
+package digest
+
+// The key a digest is ordered by (trusted: string formatting).
+//@ ufunc dgKey(str) str
+//@ func (Digest).String
+//@   trusted
+//@   modifies nothing
+//@   ensures result == dgKey(d.value)
+
+// (The contract of GetDifferenceAndIntersection itself is in
+// verif_contracts.go, next to what its callers rely on.)
